@@ -142,10 +142,10 @@ func gitEnv(extra ...string) []string {
 	return append(env, extra...)
 }
 
-// hangLimit: how long a subprocess may run before it is killed and reported as hanging (code -9). Twenty seconds
-// for the small repositories of most engines; engines with deliberately heavy cases raise it (see `rw`), so that a
+// hangLimit: how long a subprocess may run before it is killed and reported as hanging (code -9). Sixty seconds
+// for the small repositories of most engines (they take milliseconds; the limit only has to tell a hang from a loaded machine); engines with deliberately heavy cases raise it (see `rw`), so that a
 // loaded machine or the -race build does not turn a slow run into a "hang".
-var hangLimit = 20 * time.Second
+var hangLimit = 60 * time.Second
 
 func runCmd(dir string, env []string, stdin []byte, name string, args ...string) (stdout, stderr []byte, code int) {
 	c := exec.Command(name, args...)
@@ -197,7 +197,12 @@ func buildRepoKind(objs []gObj, times []int64, refs []string, bare bool) (*realR
 		initArgs = []string{"init", "-q", filepath.Join(dir, "w")}
 	}
 	if _, e, code := runCmd(dir, gitEnv(), nil, "git", initArgs...); code != 0 {
-		return nil, fmt.Errorf("git init: %s", e)
+		// once more before giving up: a failure to set the scratch repository up is reported as a broken check
+		time.Sleep(200 * time.Millisecond)
+		os.RemoveAll(gitDir)
+		if _, e2, code2 := runCmd(dir, gitEnv(), nil, "git", initArgs...); code2 != 0 {
+			return nil, fmt.Errorf("git init: %s / %s", e, e2)
+		}
 	}
 	rr := &realRepo{dir: gitDir, objs: objs, oids: make([]string, len(objs))}
 	// "@LONGREF" in a reference name stands for the longest tail for which <gitdir>/<name> is still a valid path
